@@ -205,6 +205,10 @@ class ProgramModel:
             for b in ci.node.bases:
                 if isinstance(b, ast.Name) and b.id in self.classes:
                     ci.bases.append(b.id)
+        # the modules as written, for the few rules that are about call sites as such (R-THREAD: "a builder passes its
+        # own `hours` as the callee's `hours`")
+        from .astutil import clone, set_parents
+        self.raw_modules = {m: (rel, set_parents(clone(tree))) for m, (rel, tree, _) in self.modules.items()}
         # canonical form (efa/canon.py): constants substituted, private helpers inlined, temporaries folded
         if os.environ.get("EFA_NO_CANON") != "1":
             from .canon import Canonicaliser, substitute_constants
@@ -227,6 +231,12 @@ class ProgramModel:
 
     def module_tree(self, suffix):
         for m, (rel, tree, src) in self.modules.items():
+            if rel.endswith(suffix):
+                return rel, tree
+        raise AnalysisError(f"anchor module {suffix} not found")
+
+    def raw_module_tree(self, suffix):
+        for m, (rel, tree) in self.raw_modules.items():
             if rel.endswith(suffix):
                 return rel, tree
         raise AnalysisError(f"anchor module {suffix} not found")
